@@ -996,7 +996,19 @@ def normalise_leaf(leaf):
         for a, b in syn:
             s = s.replace(a, b)
         res.append(s)
-    return res
+    # a local that only names the element just appended (`auto &&x = c.emplace_back(a);`: emplace_back returns a
+    # reference to the new last element) is that element: the effect is `c.emplace_back(a)`, later `x` is `c.top()`
+    out2 = []
+    alias = {}
+    for s in res:
+        for x, rep in alias.items():
+            s = re.sub(r"(?<![A-Za-z0-9_.>])%s(?![A-Za-z0-9_])" % re.escape(x), rep, s)
+        m = re.match(r"^decl (\w+) = ((\w+)\.emplace_back\(.*\))$", s)
+        if m:
+            alias[m.group(1)] = m.group(3) + ".top()"
+            s = m.group(2)
+        out2.append(s)
+    return out2
 
 
 def classify_table(table):
@@ -1009,14 +1021,13 @@ def classify_table(table):
 
 
 GET_TABLE = [
-    (".allocateNew", [["decl buf = m_busy.emplace_back(make_unique())", "return BufferPtr(buf.get(),Recycler{this})"]]),
+    # (after `normalise_leaf`: a local naming the appended element is `m_busy.top()`)
+    (".allocateNew", [["m_busy.emplace_back(make_unique())", "return BufferPtr(m_busy.top().get(),Recycler{this})"]]),
     (".throwOutOfBuffers", [["throw runtime_error(out of buffers)"], ['throw runtime_error("out of buffers")']]),
-    (".reuseIdleTop true", [["decl buf = m_busy.emplace_back(move(m_idle.top()))", "m_idle.pop()", "buf->clear()",
-                             "return BufferPtr(buf.get(),Recycler{this})"]]),
     (".reuseIdleTop true", [["m_busy.emplace_back(move(m_idle.top()))", "m_idle.pop()", "m_busy.top()->clear()",
                              "return BufferPtr(m_busy.top().get(),Recycler{this})"]]),
-    (".reuseIdleTop false", [["decl buf = m_busy.emplace_back(move(m_idle.top()))", "m_idle.pop()",
-                              "return BufferPtr(buf.get(),Recycler{this})"]]),
+    (".reuseIdleTop false", [["m_busy.emplace_back(move(m_idle.top()))", "m_idle.pop()",
+                              "return BufferPtr(m_busy.top().get(),Recycler{this})"]]),
 ]
 STEP_TABLE = [
     (".socketsOnly", [["StepSockets(timeout)"]]),
